@@ -195,6 +195,8 @@ pub fn check(c: &DetCase, probe: &Probe) -> Verdict {
             ("repeat-1".into(), diff.clone(), vec![], None, String::new()),
             ("repeat-2".into(), diff.clone(), vec![], None, String::new()),
             ("one-core".into(), diff.clone(), vec![], Some("0"), String::new()),
+            ("two-cores".into(), diff.clone(), vec![], Some("0,1"), String::new()),
+            ("three-cores".into(), diff.clone(), vec![], Some("0-2"), String::new()),
             ("workers-1".into(), diff.clone(), vec![("TOKIO_WORKER_THREADS", "1")], None, String::new()),
             ("workers-16".into(), diff.clone(), vec![("TOKIO_WORKER_THREADS", "16")], None, String::new()),
         ];
@@ -265,7 +267,7 @@ pub fn case_strategy() -> BoxedStrategy<DetCase> {
 }
 
 pub fn run(run: &mut Run) {
-    run.rule = "random: cases drawn from the generators of C11 (rule/severity mixes, scan or new-file diff), C01 (drift: edit scripts and real git diffs in generated modes) and C02 (touched blocks with rules), well-formed rules only, in half of the cases together with a Makefile, go.mod and .d.ts file holding violating blocks next to unsupported LICENSE / AUTHORS / deps.mod files; each case is materialised twice (files created in forward and in reverse order, fresh repositories) and run as `validate` and as `list` under a matrix: 3 repetitions (fresh processes => fresh hash seeds), pinned to one core, TOKIO_WORKER_THREADS 1 and 16, the diff's file sections rotated/reversed, and started from up to 2 sub-directories when no rule names a script path. Every variant must give the same exit status and the same diagnostics / listing (compared after sorting). Evaluations count runs. Non-trivial = >= 2 files and a non-empty diagnostics report.".into();
+    run.rule = "random: cases drawn from the generators of C11 (rule/severity mixes, scan or new-file diff), C01 (drift: edit scripts and real git diffs in generated modes) and C02 (touched blocks with rules), well-formed rules only, in half of the cases together with a Makefile, go.mod and .d.ts file holding violating blocks next to unsupported LICENSE / AUTHORS / deps.mod files; each case is materialised twice (files created in forward and in reverse order, fresh repositories) and run as `validate` and as `list` under a matrix: 3 repetitions (fresh processes => fresh hash seeds), pinned to one, two and three cores, TOKIO_WORKER_THREADS 1 and 16, the diff's file sections rotated/reversed, and started from up to 2 sub-directories when no rule names a script path. Every variant must give the same exit status and the same diagnostics / listing (compared after sorting). Evaluations count runs. Non-trivial = >= 2 files and a non-empty diagnostics report.".into();
     run.assumptions = vec!["hash seeds and thread schedules are sampled by repetition, not enumerated".into(), "error texts of failing runs are compared by exit status only".into()];
     run.shrink_iters = 60;
     run.random("matrix", run.tier.pick(250, 5000), case_strategy, check);
